@@ -478,7 +478,7 @@ func Each[C any](t *testing.T, r *Recorder, cases []C, run func(C) Outcome) {
 		if msg := r.handle(test, c, out); msg != "" {
 			fmt.Println(msg)
 			failed++
-			if failed >= 10 {
+			if failed >= EnvInt("VERIF_MAXFAIL", 10) {
 				break
 			}
 		}
